@@ -39,7 +39,10 @@ def f_rotate(case):
     be, N, kind = case['be'], case['N'], case['kind']
     Bk = B.backend(be)
     GL, gk, gl = _embed_gen(case)
-    G = Bk.pauli(gl, gk)
+    if case.get('gsrc') == 'indexed':        # generator obtained by indexing a list (its phase is then an array / tensor element)
+        G = Bk.plist(np.array([gl, gl]), [gk, gk])[1]
+    else:
+        G = Bk.pauli(gl, gk)
     g_before = B.snapshot(G)
     m = _mask_arg(Bk, case)
     U = ref.dense_rotation_unitary(GL, gk) if N <= 4 else None
@@ -103,7 +106,7 @@ def st_rotcase(be, hiN, kinds):
     def inner(t):
         N, n = t
         base = {'be': st.just(be), 'N': st.just(N), 'qubits': gen.st_subset(N, n), 'usemask': st.booleans(),
-                'gen': gen.st_herm(n)}
+                'gen': gen.st_herm(n), 'gsrc': st.sampled_from(['fresh', 'fresh', 'indexed'])}
         opts = []
         if 'pauli' in kinds:
             opts.append(st.fixed_dictionaries(dict(base, kind=st.just('pauli'), ops=st.lists(gen.st_pauli(N), min_size=1, max_size=1))))
@@ -171,26 +174,34 @@ def f_sequence(case):
     obj = Bk.plist(L, K)
     cl, ck = L.copy(), K.copy()
     nt = False
+    pool = {}        # generator objects are reused across the steps of one history (a rotation must not change its generator)
+
+    def gen_obj(step):
+        key = (step['gen'], tuple(step['qubits']))
+        if key not in pool:
+            gl, gk = ref.parse(step['gen'])
+            pool[key] = Bk.plist(np.array([gl, gl]), [gk, gk])[0] if (len(pool) + case.get('salt', 0)) % 2 else Bk.pauli(gl, gk)
+        return pool[key]
     for step in case['steps']:
         sc = {'N': N, 'gen': step['gen'], 'qubits': step['qubits']}
         GL, gk, gl = _embed_gen(sc)
         m = Bk.mask(step['qubits'], N)
         nt = nt or _nt(sc, cl, ck, GL, gk)
-        obj.rotate_by(Bk.pauli(gl, gk), m)
+        obj.rotate_by(gen_obj(step), m)
         cl, ck = ref.rotate_rule(cl, ck, GL, gk)
         C.expect_list(Bk.read_list(obj), (cl, ck), 'after step %s' % step, 'seq')
     # undo in reverse with -G
     for step in reversed(case['steps']):
         sc = {'N': N, 'gen': step['gen'], 'qubits': step['qubits']}
         GL, gk, gl = _embed_gen(sc)
-        obj.rotate_by(-Bk.pauli(gl, gk), Bk.mask(step['qubits'], N))
+        obj.rotate_by(-gen_obj(step), Bk.mask(step['qubits'], N))
     C.expect_list(Bk.read_list(obj), (L, K), 'after undoing all rotations with -G', 'undo')
     if case['steps']:
         step = case['steps'][0]
         sc = {'N': N, 'gen': step['gen'], 'qubits': step['qubits']}
         GL, gk, gl = _embed_gen(sc)
         for _ in range(4):
-            obj.rotate_by(Bk.pauli(gl, gk), Bk.mask(step['qubits'], N))
+            obj.rotate_by(gen_obj(step), Bk.mask(step['qubits'], N))
         C.expect_list(Bk.read_list(obj), (L, K), 'after four rotations by %s' % step['gen'], 'four')
     return {'nt': nt and len(case['steps']) >= 2, 'labels': ['steps=%d' % len(case['steps'])]}
 
@@ -199,7 +210,7 @@ def st_seq(be, hiN):
     def inner(N):
         step = st.integers(1, N).flatmap(lambda n: st.fixed_dictionaries({'gen': gen.st_herm(n), 'qubits': gen.st_subset(N, n)}))
         return st.fixed_dictionaries({'be': st.just(be), 'N': st.just(N), 'ops': st.lists(gen.st_pauli(N), min_size=1, max_size=5),
-                                      'steps': st.lists(step, min_size=1, max_size=8)})
+                                      'steps': st.lists(step, min_size=1, max_size=8), 'salt': st.integers(0, 1)})
     return st.integers(1, hiN).flatmap(inner)
 
 
